@@ -1,14 +1,4 @@
 HOOK_COMMITS = ["9d19645"]
 
+# properties deliberately not claimed, with the reason
 NOT_APPLICABLE = {}
-
-META = {
-    "C19": {
-        "text": "Lock-step set model plus structural invariant walker over every operation of ~7.7k (quick) / ~450k (thorough) random histories and the "
-                "exhaustive enumeration of all short histories over a 4-key universe with a live iterator; held on the histories executed, which the "
-                "evidence lists by operation, rotation/delete case (Count hook) and distinct tree shapes. Not a proof: longer histories and larger trees are sampled only.",
-        "design_ref": "DESIGN.md section 3, C19",
-        "note": "Trusted: the Go map model and the invariant walker in harness/c19; the successor semantics of live iterators stated in DESIGN.md.",
-        "technique": "runtime monitoring: lock-step reference model (set) + invariant hook walk after every operation; Count-hook coverage",
-    },
-}
